@@ -9,7 +9,7 @@ while [ $# -ge 2 ]; do
   echo "== $prop $patch"
   rm -rf "$S/repo"; mkdir -p "$S/repo"; cp -r /repo/alembic "$S/repo/"
   if (cd "$S/repo" && patch -p1 -s < "$patch" >/dev/null 2>&1); then
-    VERIF_REPO="$S/repo" ./check "$prop" 2>&1 | grep -v "^KNOWN" | tail -2
+    VERIF_NO_EVIDENCE=1 VERIF_REPO="$S/repo" ./check "$prop" 2>&1 | grep -v "^KNOWN" | tail -2
   else
     echo "PATCH DOES NOT APPLY"
   fi
